@@ -61,7 +61,7 @@ def dec (p : List String) : String :=
     if r.2.1 == .panic then "PANIC" else s!"{statusStr r.2.1} {showFrames r.1} left={r.2.2.length}"
   | ["dec", "peek", max, bytes] =>
     match peekFrameLen (parseInt max) (parseBytes bytes) with
-    | .needMore => "more" | .error => "err" | .panic => "PANIC" | .total n => s!"total {n}"
+    | .needMore => "more" | .error => "err" | .total n => s!"total {n}"
   | ["dec", "codec", plen, bytes, cuts] =>
     let d := parseBytes bytes
     let n := min plen.toNat! d.length
@@ -70,10 +70,61 @@ def dec (p : List String) : String :=
     s!"{st} {showFrames r.2} left={r.1.buf.length}"
   | _ => "bad-op"
 
+/-- RFC 23 header shape, written out independently of the model's encoders -/
+def expectBytes (fs : List Frame) : List UInt8 :=
+  (fs.map fun f =>
+    let fl : UInt8 := (if f.more then 1 else 0) ||| (if f.command then 4 else 0)
+    let n := f.payload.length
+    (if n ≤ 255 then [fl, UInt8.ofNat n]
+     else (fl ||| 2) :: ((List.range 8).map fun i => UInt8.ofNat (n >>> (8 * (7 - i)))))
+    ++ f.payload).flatten
+
+def peekWalk (max : Int) : Nat → List UInt8 → Nat → Option Nat
+  | 0, _, _ => none
+  | fuel + 1, src, n =>
+    if src.isEmpty then some n else
+    match peekFrameLen max src with
+    | .total t => if t == 0 || src.length < t then none else peekWalk max fuel (src.drop t) (n + 1)
+    | _ => none
+
+def rt (p : List String) : String :=
+  match p with
+  | ["rt", b, cuts, max] =>
+    let batch := parseBatch b
+    let flat := batch.flatten
+    let expect := expectBytes flat
+    let encs : List (String × List UInt8) :=
+      [("codec", (flat.map encodeCodec).flatten),
+       ("hdronly", (flat.map fun f => encodeHeaderOnly f ++ f.payload).flatten),
+       ("split", (flat.map fun f => (writeMsgSplit f).1 ++ (writeMsgSplit f).2.getD []).flatten),
+       ("contig", frameContiguous batch),
+       ("vect", (frameVectored batch).flatten)]
+    match encs.find? (fun e => e.2 != expect) with
+    | some e => s!"ORACLE-FAIL encoder={e.1} got={summ e.2} want={summ expect}"
+    | none =>
+      let hexed := "h" ++ hexOf expect
+      let want := s!"more {showFrames flat} left=0"
+      let decs : List (String × String) :=
+        [("buffer", dec ["dec", "buffer", max, hexed, cuts]),
+         ("rdbytes", dec ["dec", "rdbytes", max, hexed, cuts]),
+         ("slice", dec ["dec", "slice", max, hexed]),
+         ("bytes", dec ["dec", "bytes", max, hexed]),
+         ("codec", dec ["dec", "codec", "0", hexed, cuts]),
+         ("codec-prefix", dec ["dec", "codec", "1", hexed, cuts])]
+      match decs.find? (fun d => d.2 != want) with
+      | some d => s!"ORACLE-FAIL decoder={d.1} got=[{d.2}] want=[{want}]"
+      | none =>
+        match peekWalk (parseInt max) (expect.length + 1) expect 0 with
+        | some n => if n == flat.length then s!"rt ok n={flat.length} len={expect.length}"
+                    else s!"ORACLE-FAIL decoder=peek frames={n}"
+        | none => "ORACLE-FAIL decoder=peek"
+  | _ => "bad-op"
+
 def runOp (p : List String) : String :=
   match p with
   | "enc" :: _ => enc p
   | "dec" :: _ => dec p
+  | "rt" :: _ => rt p
   | _ => "bad-op"
 
 end Rzmq.Driver.Wire
